@@ -222,6 +222,13 @@ GroupTransDeps == C("grouptransdeps", <<R("r1", SG, 0, "a", "ctorerr", TRUE, <<P
                                         Grouped(R("r2", TR, 1, "a", "ctorerr", FALSE, <<P("S2")>>)),
                                         R("r3", SG, 2, "a", "ctorerr", FALSE, <<P("S3")>>),
                                         R("r4", SG, 3, "a", "ctorerr", FALSE, <<>>)>>)
+\* a group with a transient and a singleton member consumed by TWO singletons and by a scoped service (each consumer
+\* gets transient members of its own, at Build and afterwards)
+GroupTransTwoSing == C("grouptranstwosing", <<Grouped(R("r1", TR, 1, "a", "ctorerr", FALSE, <<>>)),
+                                              Grouped(R("r2", SG, 1, "b", "ctorerr", FALSE, <<>>)),
+                                              R("r3", SG, 0, "a", "ctorerr", TRUE, <<PG("S1")>>),
+                                              R("r4", SG, 2, "a", "ctorerr", TRUE, <<PG("S1")>>),
+                                              R("r5", SC, 3, "a", "ctorerr", TRUE, <<PG("S1")>>)>>)
 GroupMixedOK == C("groupmixedok", <<Grouped(R("r1", SC, 1, "a", "ctorerr", FALSE, <<>>)),
                                     Grouped(R("r2", TR, 1, "b", "ctorerr", FALSE, <<>>)),
                                     R("r3", SC, 0, "a", "ctorerr", TRUE, <<PG("S1")>>)>>)
@@ -350,7 +357,7 @@ Iface == C("iface", <<R("r1", SC, 0, "a", "ifacerr", FALSE, <<>>),
 IfaceSing == C("ifacesing", <<R("r1", SG, 0, "a", "ifacerr", FALSE, <<>>),
                               R("r2", TR, 1, "a", "ctorerr", FALSE, <<P("I0")>>)>>)
 
-CfgMore == CfgPtr \cup {Iface, IfaceSing, Embedded, AliasDeps, DupDeps, DiamondPO, DiamondPOKG, Alias2Transient, OptionalSing, GroupTransDeps, GroupMixedOK, AliasGroupAsym}
+CfgMore == CfgPtr \cup {GroupTransTwoSing, Iface, IfaceSing, Embedded, AliasDeps, DupDeps, DiamondPO, DiamondPOKG, Alias2Transient, OptionalSing, GroupTransDeps, GroupMixedOK, AliasGroupAsym}
 
 Plain == {Basic, Chain, Keyed, Group, GroupScoped, GroupDeps, Multi, MultiTr, OutKN, OutKNSing, Alias1, Alias2,
           Alias2Scoped, Diamond2, Optional, Inits, InitSing, Builtin, InstVal, InstVals, InstValsV} \cup CfgForms \cup CfgMore \cup CfgRemoved
@@ -415,6 +422,7 @@ Tree1 == [s1 |-> "prov"]
 
 One(c) == {c}
 CfgBasic == {Basic}
+CfgGTTS == {GroupTransTwoSing}
 CfgBuiltinFaults == Sane(BuiltinFaulty)
 CfgRemovedAll == CfgRemoved \cup CfgRemovedDefective
 CfgRelease == {Basic, Chain, Inits, Multi, Diamond2}
